@@ -18,7 +18,7 @@ from vmon.libutil import monitored
 
 LEVEL = "exploration"
 SHARDS = {"quick": 16, "thorough": 16}
-MUST = ["bigstream.reads_on_packet_borders", "schedules.cut_inside_header", "schedules.several_packets_per_delivery", "option.show_progress", "kind.bytes_subclass", "filemoved.read-all", "filemoved.seek-end", "filemoved.other-generator", "kind.bytes", "kind.file", "kind.socket", "kind.socketpair", "kind.realfile",
+MUST = ["bigstream.reads_on_packet_borders", "schedules.cut_inside_header", "schedules.several_packets_per_delivery", "option.show_progress", "option.show_progress.socket", "option.show_progress.file", "option.show_progress.bytes", "kind.bytes_subclass", "filemoved.read-all", "filemoved.seek-end", "filemoved.other-generator", "kind.bytes", "kind.file", "kind.socket", "kind.socketpair", "kind.realfile",
         "bigstream.packets", "via_packet_generator", "filepos.written", "filepos.partly-read", "filepos.at-end", "filepos.parsed-once", "file.update_mode", "header.all-zero"]
 RULE = ("each case = (packet list, prefix length k, source kind, read size / recv schedule); the generator is stepped "
         "with next() under a step budget and the yielded sequence compared with the packet list. Enumerated "
@@ -99,6 +99,7 @@ def run_case(ctx, kind, pkts, stream, k, r=None, chunks=None, rng=None, via_def=
     if progress:
         import contextlib
         ctx.count("option.show_progress")
+        ctx.count(f"option.show_progress.{kind}")
         with contextlib.redirect_stdout(io.StringIO()):
             return _run_case(ctx, kind, pkts, stream, k, r, chunks, rng, via_def, sig, True, moved)
     return _run_case(ctx, kind, pkts, stream, k, r, chunks, rng, via_def, sig, False, moved)
